@@ -113,6 +113,7 @@ struct Cfg {
   std::vector<uint8_t> arbs, sends, infos;   // SA= / S= / I= arguments
   unsigned cap = 3;                          // max pending transport bytes (buffered + in flight)
   bool clk = false, reopen = true;
+  bool distinct = false;                     // a plain byte value is never pending twice (no two equal undelivered symbols)
   long maxNodes = 2000000;
 };
 static Cfg C;
@@ -127,7 +128,7 @@ static void parseArg(const std::string& a) {
   if (k == "sigma") C.sigma = parseHexList(v.c_str()); else if (k == "arb") C.arbs = parseHexList(v.c_str());
   else if (k == "send") C.sends = parseHexList(v.c_str()); else if (k == "info") C.infos = parseHexList(v.c_str());
   else if (k == "cap") C.cap = atoi(v.c_str()); else if (k == "clk") C.clk = v != "0"; else if (k == "reopen") C.reopen = v != "0";
-  else if (k == "maxnodes") C.maxNodes = atol(v.c_str());
+  else if (k == "maxnodes") C.maxNodes = atol(v.c_str()); else if (k == "distinct") C.distinct = v != "0";
   else { fprintf(stderr, "unknown arg %s\n", a.c_str()); exit(2); }
 }
 
@@ -251,7 +252,10 @@ static int cmdGraph(const char* outPath) {
     std::vector<std::string> toks;
     if (!cur.valid) { if (C.reopen || expanded == 1) toks.push_back("OPEN"); toks.push_back("R"); }
     else {
-      if (cur.buf.size() + cur.wire.size() < C.cap) for (uint8_t b : C.sigma) toks.push_back("A=" + h2(b));
+      if (cur.buf.size() + cur.wire.size() < C.cap) for (uint8_t b : C.sigma) {
+        if (C.distinct && b < 0x80 && (std::find(cur.buf.begin(), cur.buf.end(), b) != cur.buf.end() || std::find(cur.wire.begin(), cur.wire.end(), b) != cur.wire.end())) continue;
+        toks.push_back("A=" + h2(b));
+      }
       toks.push_back("R");
       for (uint8_t a : C.arbs) toks.push_back("SA=" + h2(a));
       for (uint8_t a : C.sends) toks.push_back("S=" + h2(a));
